@@ -364,6 +364,14 @@ def make_nsamples(case, o):
             o.ns_calls.append((len(o.calls), (float(delta), float(rho), int(it), int(nruns)), k))
             return k
         return ns
+    if "rule" in spec:
+        a_, b_ = int(spec["rule"][0]), int(spec["rule"][1])
+
+        def ns(delta, rho, it, nruns):       # depends on the radii: its answer can change within one iteration
+            v = a_ if delta <= rho * (1 + 1e-12) else b_
+            o.ns_calls.append((len(o.calls), (float(delta), float(rho), int(it), int(nruns)), v))
+            return v
+        return ns
     table = spec["table"]
 
     def ns(delta, rho, it, nruns):
@@ -647,6 +655,8 @@ def draw_options(draw, n, npt, prof, has_two_sided, force_opt=None):
                 # with npt > n+1 (known finding 'hard-restart-npt-growth' of C07): soft restarts only
                 up["restarts.increase_npt_amt"] = draw(st.integers(1, 2))
             tags.append("increase_npt")
+        elif n > 1 and npt < maxnpt and draw(st.integers(0, 5)) == 0:
+            up["restarts.max_npt"] = min(npt + draw(st.integers(1, 3)), maxnpt)      # a cap without restarts.increase_npt: no effect
         if draw(st.integers(0, 1)) == 0:
             up["restarts.max_unsuccessful_restarts"] = draw(st.sampled_from([1, 2, 3]))
         if draw(st.integers(0, 2)) == 0:
@@ -693,7 +703,7 @@ def draw_options(draw, n, npt, prof, has_two_sided, force_opt=None):
                 up["init.run_in_parallel"] = True
             tags.append("random-init")
         elif o == 2 and npt > n + 1:
-            up["regression.num_extra_steps"] = draw(st.integers(1, 2))
+            up["regression.num_extra_steps"] = draw(st.sampled_from([1, 1, 2, npt, npt + 2]))     # the solver caps it at npt-1
             up["regression.momentum_extra_steps"] = draw(st.booleans())
             if mode != "none" and draw(st.booleans()):
                 up["regression.increase_num_extra_steps_with_restart"] = 1
@@ -801,11 +811,14 @@ def scenarios(draw, prof=None):
     if isinstance(mf, str):
         mf = npt + {"npt-1": -1, "npt": 0, "npt+1": 1}[mf]
     case["maxfun"] = None if mf is None else max(1, int(mf))
-    if prof["avg"] and draw(st.integers(0, 3)) == 0:
-        if draw(st.booleans()):
+    if prof["avg"] and draw(st.floats(0, 1)) < prof.get("avg_prob", 0.25):
+        kind_ns = draw(st.sampled_from(["const", "table", "rule"]))
+        if kind_ns == "const":
             case["nsamples"] = {"const": draw(st.sampled_from([2, 3]))}
-        else:
+        elif kind_ns == "table":
             case["nsamples"] = {"table": [[draw(st.sampled_from([0, 1, 1, 2, 3])) for _ in range(3)] for _ in range(2)]}
+        else:
+            case["nsamples"] = {"rule": draw(st.sampled_from([[3, 1], [1, 2], [2, 3]]))}
         tags.append("averaging")
     if prof.get("noise_flag", True) and draw(st.integers(0, 3)) == 0:
         case["noise_flag"] = True
